@@ -531,7 +531,8 @@ def f32_safe(v: str) -> bool:
         if not np.isfinite(f):
             return False
         # the float32 must BE the number (the engine widens it to double exactly): 1e15 prints '1e+15' as float32 but is 999999986991104
-        return float(f) == float(v) and decimal.Decimal(float(f)) == decimal.Decimal(v.strip())
+        return (decimal.Decimal(str(f)) == decimal.Decimal(v.strip())                         # what a FLOAT prints
+                and float(f) == float(v) and decimal.Decimal(float(f)) == decimal.Decimal(v.strip()))   # what a FLOAT is
     except Exception:
         return False
 
